@@ -119,6 +119,7 @@ type replayCase struct {
 	Hung      *hungCase      `json:"hung,omitempty"`
 	Net       *netCase       `json:"net,omitempty"`
 	Server    *srvCase       `json:"server,omitempty"`
+	Seq       *seqCase       `json:"seq,omitempty"`
 	UDP       bool           `json:"udp,omitempty"`
 }
 
@@ -155,7 +156,7 @@ func TestCheck(t *testing.T) {
 	defer r.Finish()
 	logrus.SetLevel(logrus.PanicLevel)
 	logrus.SetOutput(io.Discard)
-	r.Rule("case = (backend, fault script, flush layout, cancellation point). SOCKET: every dial script over {F dial fails, Wi dial ok then the i-th write on that connection fails (i=1..3)} of length <=4 (quick: those with <=2 F, one layout; thorough: all, six layouts) followed by healthy connections (a healthy connection is absorbing, so scripts containing H equal their prefix), crossed with cancellation {none, Run context at dial n, one stream's context at dial n, n over every dial} and PRNG-drawn layouts of 1-3 streams x 1-3 buffers submitted before Run or during a chosen dial; fixed regression scripts (D9 pattern, stale stream-cancel, 100-streams-per-connection reconnect); the harness pumps filler streams while the sender idles on a healthy connection with script steps left, then a sentinel, then cancels Run and counts at Run's return; the same machinery drives the real graphite and statsdaemon (tcp size and udp packet size) clients via VerifSetConnFactory, plus statsdaemon/udp over a real loopback socket. HTTP: datadog, influxdb v1/v2, newrelic infra/insights/metrics, otlp behind a scripted RoundTripper, outcome per (batch, attempt) over {2xx, 500, 429+Retry-After, transport error, hang}: every failure prefix of length <=2 then success (window 1h), every failure sequence of length <=3 repeated until the 1s (virtual) retry window expires, retries disabled (-1), otlp max-retries, and cancellation before the call / at the n-th request / during the n-th back-off / late while only hung requests remain; layouts 0, 1, 3 batches (all batches or only the middle one following the script; max-requests 1 or 4); cloudwatch through a scripted API (per call ok/error/block), stdout and null. The influxdb cancelled-before-call case is repeated >=40 times per run. CLIENT TIMEOUT: (a) transport pools built from generated configurations (TOML, YAML, nested map, dotted keys; no transport section, [transport.default] with only unrelated keys / with client-timeout in 11 spellings incl. 0 / empty, named transports with and without their own client-timeout): http.Client.Timeout of pool.Get(name) must be the transport's own client-timeout, else 10s if its table exists, else that of transport.default (10s when unset) as TRANSPORT.md documents; (b) datadog, influxdb v1/v2, newrelic, otlp on a pool whose [transport.default] sets client-timeout 100-150ms next to other keys, against a real loopback server that reads the request and never answers: one callback, with an error (retries disabled / one virtual back-off / three sequential batches). PRODUCTION DIALER: graphite (tags/basic/legacy) and statsdaemon/tcp built by backends.InitBackend from TOML/YAML text (dial_timeout 80-350ms), nothing substituted, against a loopback TCP listener: healthy, the sender's 100-streams-per-connection reconnect, peer drops the connection, listener stops and listens again, listener starts late; the re-dial always happens after more than dial_timeout of uptime; every flush must be answered once the listener accepts, exactly once at Run's return. SERVER: real statsd.Server.RunWithCustomSocket with those backends wired like cmd/gostatsd (Backends + Runnables), 1-3 workers, real-clock flush interval 0.5-5ms, null/internal statser, datagram feed on/off, 6-10 start/stop cycles per case: when the server has returned every SendMetricsAsync it issued (counting wrapper) has exactly one callback and nothing crashed. FLUSHER: real MetricFlusher + BackendHandler (1-2 workers) + influxdb/datadog/graphite: a flush whose transport fails, then a healthy one. Oracles: callback count per SendMetricsAsync == 1 at quiescence (Run returned / no request in flight, no mock timers, goroutine count back to baseline, context cancelled afterwards); non-nil error whenever an observed batch or buffer was not delivered (no 2xx / failed or missing write); no error when every observed batch got a 2xx and nothing was cancelled; no panic; next flush's request observed. Non-trivial = at least one transport failure was observed and the request then ended in recovery, retry-window expiry or cancellation; distinct by (backend, script, cancellation, observed batch count class).")
+	r.Rule("case = (backend, fault script, flush layout, cancellation point). SOCKET: every dial script over {F dial fails, Wi dial ok then the i-th write on that connection fails (i=1..3)} of length <=4 (quick: those with <=2 F, one layout; thorough: all, six layouts) followed by healthy connections (a healthy connection is absorbing, so scripts containing H equal their prefix), crossed with cancellation {none, Run context at dial n, one stream's context at dial n, n over every dial} and PRNG-drawn layouts of 1-3 streams x 1-3 buffers submitted before Run or during a chosen dial; fixed regression scripts (D9 pattern, stale stream-cancel, 100-streams-per-connection reconnect); the harness pumps filler streams while the sender idles on a healthy connection with script steps left, then a sentinel, then cancels Run and counts at Run's return; the same machinery drives the real graphite and statsdaemon (tcp size and udp packet size) clients via VerifSetConnFactory, plus statsdaemon/udp over a real loopback socket. HTTP: datadog, influxdb v1/v2, newrelic infra/insights/metrics, otlp behind a scripted RoundTripper, outcome per (batch, attempt) over {2xx, 500, 429+Retry-After, transport error, hang}: every failure prefix of length <=2 then success (window 1h), every failure sequence of length <=3 repeated until the 1s (virtual) retry window expires, retries disabled (-1), otlp max-retries, and cancellation before the call / at the n-th request / during the n-th back-off / late while only hung requests remain; layouts 0, 1, 3 batches (all batches or only the middle one following the script; max-requests 1 or 4); cloudwatch through a scripted API (per call ok/error/block), stdout and null. The influxdb cancelled-before-call case is repeated >=40 times per run. CLIENT TIMEOUT: (a) transport pools built from generated configurations (TOML, YAML, nested map, dotted keys; no transport section, [transport.default] with only unrelated keys / with client-timeout in 11 spellings incl. 0 / empty, named transports with and without their own client-timeout): http.Client.Timeout of pool.Get(name) must be the transport's own client-timeout, else 10s if its table exists, else that of transport.default (10s when unset) as TRANSPORT.md documents; (b) datadog, influxdb v1/v2, newrelic, otlp on a pool whose [transport.default] sets client-timeout 100-150ms next to other keys, against a real loopback server that reads the request and never answers: one callback, with an error (retries disabled / one virtual back-off / three sequential batches). SEQUENCES: on ONE long-lived client of every HTTP family and cloudwatch (max-requests 1-3), PRNG-drawn runs of flushes that are cancelled with min(batches, max-requests) requests in flight at a hung peer (at least max-requests of them), fail over the whole retry window, are cancelled before the call or succeed, followed by 2-3 flushes with fresh contexts against a healthy peer: each answered exactly once, without error, its batches delivered. SOCKET CLAUSE: a request nobody cancelled, answered before Run was cancelled, must not carry context.Canceled/DeadlineExceeded and must have been written unless a write of its data failed (flushes issued during an outage wait for recovery). PRODUCTION DIALER: graphite (tags/basic/legacy) and statsdaemon/tcp built by backends.InitBackend from TOML/YAML text (dial_timeout 80-350ms), nothing substituted, against a loopback TCP listener: healthy, the sender's 100-streams-per-connection reconnect, peer drops the connection, listener stops and listens again, listener starts late; the re-dial always happens after more than dial_timeout of uptime; every flush must be answered once the listener accepts, exactly once at Run's return. SERVER: real statsd.Server.RunWithCustomSocket with those backends wired like cmd/gostatsd (Backends + Runnables), 1-3 workers, real-clock flush interval 0.5-5ms, null/internal statser, datagram feed on/off, 6-10 start/stop cycles per case: when the server has returned every SendMetricsAsync it issued (counting wrapper) has exactly one callback and nothing crashed. FLUSHER: real MetricFlusher + BackendHandler (1-2 workers) + influxdb/datadog/graphite: a flush whose transport fails, then a healthy one. Oracles: callback count per SendMetricsAsync == 1 at quiescence (Run returned / no request in flight, no mock timers, goroutine count back to baseline, context cancelled afterwards); non-nil error whenever an observed batch or buffer was not delivered (no 2xx / failed or missing write); no error when every observed batch got a 2xx and nothing was cancelled; no panic; next flush's request observed. Non-trivial = at least one transport failure was observed and the request then ended in recovery, retry-window expiry or cancellation; distinct by (backend, script, cancellation, observed batch count class).")
 	r.Assume("scripted net.Conn / ConnFactory / http.RoundTripper / CloudWatch API installed by the harness; the sender's real 1 s reconnect timer is waited out on logical conditions (next dial observed); whether a batch was delivered is taken from the responses the harness itself served")
 	r.Assume("the fault scripts run the pooled http.Client with client-timeout 0; the wiring of client-timeout is checked separately (configuration phase + a silent real loopback server, where the client's real-clock timeout is waited out generously)")
 	r.Assume("OTLP retries re-send a request whose body is already drained and New Relic insights/metrics retries re-gzip the gzipped payload: outside C16, batches are identified through Request.GetBody and repeated gunzip")
@@ -178,6 +179,8 @@ func TestCheck(t *testing.T) {
 				runNetCase(r, *rc.Net)
 			case rc.Server != nil:
 				runServerCase(r, *rc.Server)
+			case rc.Seq != nil:
+				runSeqCase(r, *rc.Seq)
 			case rc.UDP:
 				runUDPCase(r)
 			}
@@ -194,6 +197,8 @@ func TestCheck(t *testing.T) {
 	}
 	// Phase B: HTTP backends, sequential (the goroutine count is part of the quiescence condition).
 	runHTTPPhase(r)
+	// Phase B2: sequences of flushes on one long-lived client (earlier ones cancelled in flight / failed).
+	runSeqPhase(r)
 	// Phase C: flusher level.
 	runFlusherPhase(r)
 	// Phase D: the client timeout, the only thing that ends an attempt against a silent server.
